@@ -166,7 +166,7 @@ def check(prop, tier, verif_seed, budget_override=None):
                 reported.append((sig, path, rec))
         for path, msg in unstable:
             print(f'UNSTABLE {prop}: a violation was observed but its replay file {path} does not reproduce in a fresh '
-                  f'interpreter: {msg.strip()[:300]}', flush=True)
+                  f'interpreter: {msg.strip()[:300]} ... {msg.strip()[-700:]}', flush=True)
         if unstable and not reported and not known_lines:
             # something is wrong, but nothing we can stand behind with an exact replay: never exit 0, never claim
             print(f'HARNESS-ERROR {prop}: {len(unstable)} violation(s) observed, none replayable', flush=True)
@@ -245,7 +245,7 @@ def replay_file_fresh(prop, path, rewrite=False):
         return ('RE-RECORDED' in p.stdout), p.stdout[-300:]
     if p.returncode == runner.EXIT_VIOLATION and '\nREPRODUCED' in ('\n' + p.stdout):
         return True, ''
-    return False, f'rc={p.returncode} out={p.stdout[-500:]} err={p.stderr[-800:]}'
+    return False, f'rc={p.returncode} out={p.stdout[-500:]} err={p.stderr[-1500:]}'
 
 
 def replay(prop, path, quiet=False):
